@@ -62,7 +62,7 @@ def run_cases(run: Run, cases, defaults, workers=None):
     finally:
         comp.close()
     stats["compile_seconds"] = round(stats["compile_seconds"], 1)
-    if stats.get("worker_failures", 0) > max(2, len(cases) // 5):
+    if stats.get("worker_failures", 0) > max(4, len(cases) // 2):
         run.harness_error("pool", f"{stats['worker_failures']} of {len(cases)} tasks lost to worker failures/timeouts")
     return results, stats
 
